@@ -24,6 +24,9 @@ type RunOpts struct {
 	Faults bool
 	// NoFees disables update_fee.
 	NoFees bool
+	// NoAdmin disables the channel-record writes made through a second,
+	// stale handle on zero-conf channels (DoAdmin).
+	NoAdmin bool
 	// AfterStep runs after every action (both sides consistent).
 	AfterStep func(s *Sim, action string) error
 	// AfterCut runs right after a reestablish exchange.
@@ -159,6 +162,9 @@ func (s *Sim) Run(t *rapid.T, o RunOpts) error {
 			acts = append(acts, act{"fee", w})
 		}
 		acts = append(acts, act{"drain", 1})
+		if !o.NoAdmin {
+			acts = append(acts, act{"adminA", 1}, act{"adminB", 1})
+		}
 		if o.Cuts {
 			acts = append(acts, act{"cut", o.CutWeight})
 			for x := 0; x < 2; x++ {
@@ -242,6 +248,14 @@ func (s *Sim) Run(t *rapid.T, o RunOpts) error {
 				rate = 253
 			}
 			_, err = s.DoFee(chainfee.SatPerKWeight(rate))
+		case "adminA", "adminB":
+			lo := 2
+			if s.P.ZeroConf {
+				lo = 0
+			}
+			err = s.DoAdmin(int(name[5]-'A'),
+				rapid.IntRange(lo, 3).Draw(t, "adminKind"),
+				uint32(rapid.IntRange(100, 700).Draw(t, "adminVal")))
 		case "drain":
 			err = s.Drain(func() error { return after("drain-step") })
 			if err == nil && s.Aborted == "" {
